@@ -10,6 +10,12 @@ A scenario fixes, for one received message (a single request / notification or a
             (`pause_writing()`) and has room again (`resume_writing()`); `via` says how the
             buffer fills: 'write' = inside `transport.write()` of an unrelated earlier response
             (the only place asyncio does it), 'env' = signalled between writes.
+  * `limit_at`  [(instant, value)..]: at these virtual instants `max_response_size` is changed
+            while the members are suspended in `handle_request` - by another request's handler
+            (`limvia` = 'handler': a `set_limit` request is fed to the session at that instant)
+            or by the operator (`limvia` = 'attr': the public attribute is assigned).  The limit
+            in force when a member's result is supplied (`lims` / `lim`, derived in `prepare`) is
+            the last one set strictly before its handler returns; `max` is the one at receipt.
 The instants are chosen so that the processing timeout of a member lands (a) while its handler
 is still running, (b) after the handler delivered while the response is parked on the full send
 buffer, (c) after the response was written - for single requests and for the final / a non-final
@@ -30,6 +36,7 @@ from harness.c02_util import PROTO_CLASS, id_token
 from harness.rig import Rig
 
 FILLER_ID = 990099
+SETLIM_ID = 880088
 PT = 10.0
 DURS = (0, 2, 5, 12)
 WINDOWS = ((1.5, 3.5), (1.5, 7.5), (1.5, 14.5), (3.5, 14.5), (6.5, 14.5), (11.5, 14.5))
@@ -81,6 +88,9 @@ def run_case(repo, case):
                 if request.method == 'filler':
                     await asyncio.sleep(case['pause'])
                     return 'f'
+                if request.method == 'set_limit':
+                    self.connection.max_response_size = request.args[0]
+                    return True
                 m = request.args[0]
                 if isinstance(request, jr.Notification):
                     state['notifs'].append(m)
@@ -119,6 +129,16 @@ def run_case(repo, case):
             else:
                 events.append((pause, tr.env_pause))
             events.append((resume, lambda: (setattr(tr, 'pause_script', []), tr.env_resume())))
+        for k, (t, lim) in enumerate(case.get('limit_at', ())):
+            if case.get('limvia', 'handler') == 'attr':
+                events.append((t, lambda lim=lim: setattr(rig.session.connection,
+                                                          'max_response_size', lim)))
+            else:
+                style = case.get('inforce', case['proto'])
+                msg = {'method': 'set_limit', 'params': [lim], 'id': SETLIM_ID + k}
+                if style in ('v2', 'auto'):
+                    msg['jsonrpc'] = '2.0'
+                events.append((t, lambda msg=msg: rig.feed_json(msg)))
         end = max([case['pt'], resume or 0] + [d for d in case['dur'] if d is not None]) + 5
         events.append((end, lambda: None))
         for t, act in sorted(events, key=lambda e: e[0]):
@@ -126,6 +146,7 @@ def run_case(repo, case):
             act()
             rig.idle()
         writes = []
+        setlim = {}
         for rec in tr.log:
             if rec[1] != 'write':
                 continue
@@ -138,8 +159,18 @@ def run_case(repo, case):
                     msg = {'__undecodable__': line.decode('latin1')}
                 if isinstance(msg, dict) and msg.get('id') == FILLER_ID:
                     continue
+                if isinstance(msg, dict) and isinstance(msg.get('id'), int) \
+                        and not isinstance(msg['id'], bool) \
+                        and 0 <= msg['id'] - SETLIM_ID < len(case.get('limit_at', ())):
+                    k = msg['id'] - SETLIM_ID
+                    ok = c02.setlim_answer_ok(rig.mods['jsonrpc'], case.get('inforce', case['proto']),
+                                              msg, msg['id'], case['limit_at'][k][1])
+                    setlim[k] = setlim.get(k, 0) + (1 if ok else 100)
+                    continue
                 writes.append((rec[0], msg, len(line)))
-        return {'writes': writes, 'notifs': len(state['notifs']), 'paused_at_end': tr.paused_writing}
+        want = len(case.get('limit_at', ())) if case.get('limvia', 'handler') == 'handler' else 0
+        return {'writes': writes, 'notifs': len(state['notifs']), 'paused_at_end': tr.paused_writing,
+                'setlim_bad': len(setlim) != want or any(v != 1 for v in setlim.values())}
     except (vloop.Deadlock, vloop.Livelock) as e:
         return {'hang': type(e).__name__}
     finally:
@@ -218,13 +249,25 @@ def prepare(case):
     comp = completion(case)
     durs = durations(case)
     case['busy'] = sorted(m for m, d in durs.items() if d >= case['pt'])
+    sched = sorted(case.get('limit_at', ()))
+
+    def in_force(t):
+        lim = case['max']
+        for at, v in sched:
+            if at < t:
+                lim = v
+        return lim
     if 'single' in case:
         if durs:
             case['busy'] = bool(case['busy'])
+            if sched:
+                case['lim'] = in_force(comp[0][0])
         else:
             case.pop('busy')
     else:
         case['order'] = [m for _t, m in comp]
+        if sched:
+            case['lims'] = [in_force(t) for t, _m in comp]
     return case
 
 
@@ -244,6 +287,10 @@ def evaluate(ctx, cases, res):
         rec = to_rec(jr, c, obs)
         recs.append(rec)
         v = c02.single_oracle(c, rec) if 'single' in c else c02.batch_oracle(c, rec)
+        if not v and obs.get('setlim_bad'):
+            v = ('c02:reply-count', 'a set_limit request fed while other requests were in flight '
+                                    'was not answered exactly once with its result')
+        res.count('bp_limit_changed_in_flight', c02.limit_changes(c))
         if v:
             key = v[0] if v[0].startswith('c02:notif-invalid') else v[0] + '@bp'
             res.violation(key, sc, v[1] + f' [written: {[(w[0], w[1]) for w in obs["writes"]]}]')
@@ -310,8 +357,9 @@ def _batch_line(case, rec):
     for p in case['members']:
         k = c02.classify_member(proto, p)
         toks.append('N' if k[0] == 'notif' else f'{"R" if k[0] == "req" else "X"}:{id_token(k[1])}')
-    calls = ','.join(f'{m}:{l}' for m, l in zip(case['order'], rec['lens'])) or '-'
-    return f'B {case["max"]} {",".join(toks)} {calls}'
+    calls = ','.join(f'{m}:{l}:{lim}' for m, l, lim in
+                     zip(case['order'], rec['lens'], c02.limits_of(case))) or '-'
+    return f'B {",".join(toks)} {calls}'
 
 
 def _impl_text(case, rec):
@@ -407,6 +455,81 @@ def grid(level, protos=('v2', 'loose')):
     return cases
 
 
+def limit_grid(level):
+    """`max_response_size` changed at virtual instants while the members of a batch (a single
+    request) are suspended in their handlers: received under A, changed at 1.0 (before the first
+    handler that takes time returns) and at 3.5 (between the handlers returning at 2.x and at
+    5.x) - values over the decision points of the deliveries (0, the entry alone too large, the
+    running size exceeds by one / fits exactly), lowered and raised, 0 <-> positive; by another
+    request's handler and by the operator; with and without the send buffer being full
+    meanwhile.  No handler times out here (the length of the library's SERVER_BUSY response is
+    not something the harness knows)."""
+    import itertools
+    c02 = _c02()
+    jr = c02._jr
+    inc = c02.WIRE['inc']
+    cases = []
+    for proto in ('v2', 'loose'):
+        cls = getattr(jr, PROTO_CLASS[proto])
+        for extra in (None, 'notif', 'invalid', 'req'):
+            members = [_req(proto, 0, 1), _req(proto, 1, 2)]
+            if extra == 'notif':
+                members.insert(1, _req(proto, 1, None))
+                members[2] = _req(proto, 2, 2)
+            elif extra == 'invalid':
+                members.insert(0, dict(_req(proto, 0, 30), method=1))
+                members[1], members[2] = _req(proto, 1, 1), _req(proto, 2, 1)   # duplicate ids
+            elif extra == 'req':
+                members.append(_req(proto, 2, 'a'))
+            reqs = [m for m, p in enumerate(members) if p.get('id') is not None and p['method'] == 'm']
+            for dk, durs in enumerate(((2.0, 5.1, 5.2), (5.0, 2.1, 2.2), (0, 5.1, 2.2), (2.0, 2.1, 5.2))):
+                if level == 0 and (dk + (extra is not None)) % 2:
+                    continue
+                dur = [None] * len(members)
+                for m, d in zip(reqs, durs):
+                    dur[m] = d
+                comp = sorted((dur[m], m) for m in reqs)
+                lens = [len(cls.response_message(c02.result_for(jr, m, False)[0], members[m]['id']))
+                        for _t, m in comp]
+                run, pts = 0, []
+                for l in lens:
+                    run += l + inc
+                    pts.append((0, l - 1, run - 1, run))
+                # the value set at 1.0 decides for the handlers returning at 2.x, the one set at
+                # 3.5 for those returning at 5.x
+                first = pts[[k for k, (t, _m) in enumerate(comp) if t > 1.0][0]] if any(t > 1.0 for t, _m in comp) else (0,)
+                late = [k for k, (t, _m) in enumerate(comp) if t > 3.5]
+                second = pts[late[0]] if late else (0,)
+                k = 0
+                for a in (0, min(lens) - 1, run):
+                    for v1 in first:
+                        for v2 in second:
+                            k += 1
+                            win = (None, None, 'env') if k % 3 else (1.5, 7.5, 'write')
+                            if level == 0 and k % 2 and extra is not None:
+                                continue
+                            cases.append({'proto': proto, 'max': a, 'pt': PT, 'members': members,
+                                          'dur': dur, 'limit_at': [[1.0, v1], [3.5, v2]],
+                                          'limvia': 'attr' if k % 4 == 0 else 'handler',
+                                          'pause': win[0], 'resume': win[1], 'via': win[2]})
+    for proto in ('v1', 'v2', 'loose'):
+        style = 'v2' if proto == 'v2' else 'loose'
+        cls = getattr(jr, PROTO_CLASS[proto])
+        payload = _req(style, 0, 7)
+        ln = len(cls.response_message(c02.result_for(jr, 0, False)[0], 7))
+        k = 0
+        for a in (0, ln - 1, ln):
+            for b in (0, ln - 1, ln):
+                for c in (None, 0, ln - 1, ln):
+                    k += 1
+                    sched = [[1.0, b]] + ([[1.5, c]] if c is not None else [])
+                    win = (None, None, 'env') if k % 3 else (1.5, 7.5, 'write')
+                    cases.append({'proto': proto, 'max': a, 'pt': PT, 'single': payload, 'dur': [2.0],
+                                  'limit_at': sched, 'limvia': 'attr' if k % 4 == 0 else 'handler',
+                                  'pause': win[0], 'resume': win[1], 'via': win[2]})
+    return cases
+
+
 def random_cases(rng, n):
     """seeded random timed scenarios: 1-5 members, handler durations anywhere around the
     processing timeout (never equal to it or to each other), one pause window anywhere"""
@@ -438,6 +561,14 @@ def random_cases(rng, n):
             b = a + rng.randint(1, int(pt * 10)) / 10
         c = {'proto': proto, 'max': 0, 'pt': pt, 'dur': durs, 'nerrs': nerrs, 'pause': a,
              'resume': b, 'via': rng.choice(['write', 'env'])}
+        if all(d is None or d < pt for d in durs) and rng.random() < 0.6:
+            # nobody times out: let the limit move at random instants (never at an instant at
+            # which a handler returns: those are multiples of 0.1 plus 0.01 * (member + 1))
+            c['max'] = rng.choice([0, 40, 90, 200])
+            c['limit_at'] = sorted([rng.randint(0, int(pt * 10)) / 10 + 0.005,
+                                    rng.choice([0, 35, 40, 45, 80, 90, 130, 300])]
+                                   for _ in range(rng.randint(1, 4)))
+            c['limvia'] = rng.choice(['handler', 'attr'])
         if k == 1 and rng.random() < 0.5:
             c['single'] = members[0]
         else:
@@ -454,13 +585,14 @@ def run(ctx, res):
         level = 2 if ctx.tier == 'thorough' else 1 if c02.is_deep(ctx) else 0
     cases = grid(level)
     if c02.unlisted_failure(ctx, res):
-        cases = cases[::7]
+        cases = cases[::7] + limit_grid(0)[::5]
     else:
+        cases += limit_grid(level)
         cases += random_cases(ctx.rng, (150, 600, 6000)[level])
     evaluate(ctx, cases, res)
 
 
 def replay(ctx, case, res):
-    case = {k: v for k, v in case.items() if k not in ('layer', 'busy', 'order', 'inforce')}
+    case = {k: v for k, v in case.items() if k not in ('layer', 'busy', 'order', 'inforce', 'lims', 'lim')}
     _c02()._init(ctx.repo, ctx.facts)
     evaluate(ctx, [case], res)
